@@ -8,7 +8,7 @@ ALL = ["C%02d" % i for i in range(1, 21)]
 # id -> dict(text, note, technique, design_ref)
 CHECKS = {
  "C01": dict(
-  text="Round-trip monitor over the shared box workload: 121 k inputs / 0.77 M round trips (quick), 3 M inputs (thorough) — every corpus seed (testdata files, every box cut out, ~400 hand-built instances covering all 134 registered types and their version/flag shapes, fuzz seeds) and size-consistent mutants (bit flips, field values, largesize N1, trak order N2, surplus N3, nesting) through the four decode paths and both encoders; input and output are compared on the independent walker's trees, differences must be explained by the committed don't-care list (c01_dontcare.json: reserved/pre_defined/matrix/pad masks with ISO field names, N1-N3) and the output must re-decode to an equal structure and be a fixed point; the codec configuration records are round-tripped directly.",
+  text="Round-trip monitor over the shared box workload: 226 k inputs / 1.5 M round trips (quick), 3 M inputs (thorough) — every corpus seed (testdata files, every box cut out, ~400 hand-built instances covering all 134 registered types and their version/flag shapes, fuzz seeds) and size-consistent mutants (bit flips, field values, largesize N1, trak order N2, surplus N3, nesting) through the four decode paths and both encoders; input and output are compared on the independent walker's trees, differences must be explained by the committed don't-care list (c01_dontcare.json: reserved/pre_defined/matrix/pad masks with ISO field names, N1-N3) and the output must re-decode to an equal structure and be a fixed point; the codec configuration records are round-tripped directly. Since round 9 both tiers also run every single-bit flip of the payload of every hand-built box seed (<= 96 payload bytes, 104 k inputs), and the corpus holds 188 hand-built whole files (hdlr name shapes, encrypted fragments over tenc x seig IV sizes, several top-level sidx).",
   note="Trusts the walker's container table and the hand-pruned mask list (dead entries are reported in evidence); inputs rejected by a path are outside that path's domain; seven lossy fields are recorded known findings.",
   technique="runtime monitor: differential byte comparison of decode->encode against a committed don't-care mask list, plus fixed-point and structural re-decode oracles",
   design_ref="DESIGN.md §3 C01, §13"),
